@@ -360,6 +360,18 @@ def function_predicate(fn_node, symbol=None, aliases=None):
                     isinstance(stmt.targets[0], ast.Name):
                 aliases[stmt.targets[0].id] = expand(stmt.value)
                 continue
+            if isinstance(stmt, ast.Assign) and len(stmt.targets) == 1 and \
+                    isinstance(stmt.targets[0], ast.Tuple) and all(
+                    isinstance(e, ast.Name) for e in stmt.targets[0].elts):
+                # a, b = pair: each name is the matching item
+                source = expand(stmt.value)
+                parts = source.elts if isinstance(source, ast.Tuple) and \
+                    len(source.elts) == len(stmt.targets[0].elts) else None
+                for position, elt in enumerate(stmt.targets[0].elts):
+                    aliases[elt.id] = parts[position] if parts is not None else \
+                        ast.Subscript(value=source, slice=ast.Constant(value=position),
+                                      ctx=ast.Load())
+                continue
             if isinstance(stmt, ast.Return):
                 if stmt.value is None:
                     return ('const', False)
